@@ -21,7 +21,7 @@ META = dict(
 )
 
 CUSTOM = {1: None, 2: ["a", "b"], 3: ["mx", "my", "mz"], 4: ["p", "q", "r", "t"]}
-UNITS = {"default": None, "custom": ["nm", "um", "mm", "km"]}
+UNITS = {"default": None, "custom": ["nm", "um", "mm", "km"], "empty": ["nm", "", "um", ""]}
 
 
 def _setup(sx, cfg):
@@ -89,6 +89,41 @@ def h_roundtrip(sx, cfg):
     sx.check("import-equal", g.mesh == f.mesh if not sx.sym else True)
     sx.check("import-tolerance", g.mesh.region.tolerance_factor == mesh.region.tolerance_factor)
     sx.check("source-untouched", sx.eq(f.array, arr))
+    # history: the mesh is moved and rescaled in place; a later export carries the current cell centres and attributes
+    tvec = sx.reals("t", nd)
+    f.mesh.translate(sx.arr(tvec) if nd > 1 else tvec[0], inplace=True)
+    f.mesh.scale(2.0, reference_point=[pmin[a] + tvec[a] for a in range(nd)], inplace=True)
+    xb = f.to_xarray()
+    for a, d in enumerate(dims):
+        want = [pmin[a] + tvec[a] + (i + 0.5) * 2.0 * e[a] / n[a] for i in range(n[a])]
+        sx.check(f"coords-after-in-place-change-{a}", sx.eq(list(xb[d].values), want))
+    sx.check("attrs-after-in-place-change", sx.And(sx.eq(list(xb.attrs["pmin"]), [pmin[a] + tvec[a] for a in range(nd)]), sx.eq(list(xb.attrs["cell"]), [2.0 * e[a] / n[a] for a in range(nd)])))
+
+
+def h_transposed(sx, cfg):
+    """a DataArray whose dimensions were transposed after export (coordinate storage order differs from dimension order), without the
+    geometric attributes: each axis gets its own spacing"""
+    df, f, mesh, pmin, e, arr, n, nd, nv, dims = _setup(sx, cfg)
+    xa = f.to_xarray()
+    for k in cfg.get("drop", ["cell", "pmin", "pmax"]):
+        del xa.attrs[k]
+    order = list(reversed(dims)) + (["vdims"] if nv > 1 else [])
+    xt = xa.transpose(*order)
+    try:
+        g = df.Field.from_xarray(xt)
+    except Exception as ex:  # noqa: BLE001
+        sx.check("transposed-import-accepted", False, exc=f"{type(ex).__name__}: {ex}")
+        return
+    sx.check("transposed-import-accepted", True)
+    rn = tuple(reversed(n))
+    sx.check("dims-in-dataarray-order", tuple(g.mesh.region.dims) == tuple(reversed(dims)) and tuple(int(x) for x in g.mesh.n) == rn)
+    for a in range(nd):
+        b = nd - 1 - a
+        sx.check(f"cell-of-its-own-axis[{a}]", sx.eq(g.mesh.cell[a], e[b] / n[b]))
+        sx.check(f"corners-of-its-own-axis[{a}]", sx.And(sx.eq(g.mesh.region.pmin[a], pmin[b]), sx.eq(g.mesh.region.pmax[a], pmin[b] + e[b])))
+    for idx in np.ndindex(*n):
+        for k in range(nv):
+            sx.check(f"value{idx}[{k}]", sx.eq(g.array[tuple(reversed(idx)) + (k,)], arr[idx + (k,)]))
 
 
 def h_partial(sx, cfg):
@@ -232,6 +267,12 @@ def tasks(tier):
         t.append(dict(harness="h_uneven", cfg=dict(n=list(n), nvdim=nv, axis=ax, index=idx, drop=drop), limits=big))
     for n, nv in (((2,), 1), ((2, 2), 3)):
         t.append(dict(harness="h_refuse", cfg=dict(n=list(n), nvdim=nv)))
+    for n, nv in ([((2, 3), 1), ((3, 2, 2), 3)] if q else [((2, 3), 1), ((3, 2), 2), ((3, 2, 2), 3), ((2, 3, 2, 2), 1)]):
+        # (positional attributes pmin/pmax/cell of an export do not follow a transpose; they are removed together)
+        t.append(dict(harness="h_transposed", cfg=dict(n=list(n), nvdim=nv, dims="default"), limits=big))
+        t.append(dict(harness="h_transposed", cfg=dict(n=list(n), nvdim=nv, dims="renamed", units="custom"), limits=big))
+    for n, nv in (((2, 2), 1), ((2, 1, 2), 3)):
+        t.append(dict(harness="h_roundtrip", cfg=dict(n=list(n), nvdim=nv, units="empty", labels="custom"), limits=big))
     for n, nv in ([((3,), 1), ((2, 2), 3)] if q else [((3,), 1), ((2, 2), 3), ((2, 1, 2), 2), ((1, 2, 1, 2), 1)]):
         t.append(dict(harness="h_dtype", cfg=dict(n=list(n), nvdim=nv)))
     return t
